@@ -217,7 +217,9 @@ def run_paths(F, b, operands, atom_ty=None):
             args.append(v)
     from core import absexec as _ax
     import time as _t
-    _ax.WALL_DEADLINE = _t.time() + RUN_BUDGET_S
+    if RULE_DEADLINE[0] is not None and _t.time() > RULE_DEADLINE[0]:
+        raise FactsError("rule wall-clock budget exceeded")
+    _ax.WALL_DEADLINE = min(_t.time() + RUN_BUDGET_S, RULE_DEADLINE[0] or float("inf"))
     try:
         rs = ex.run(b, args)
     finally:
@@ -225,12 +227,16 @@ def run_paths(F, b, operands, atom_ty=None):
     return [(v, fr.env.get("__pc", ())) for v, fr in rs]
 
 
+RULE_BUDGET_S = 60     # wall-clock budget of the whole rule on one tree (seconds; it needs 1-6 s on the pinned tree); functions reached after it are not judged
+RULE_DEADLINE = [None]
 RUN_BUDGET_S = 12      # wall-clock budget of one abstract run; beyond it the function is not judged (never a verdict)
 OPS = ("inverse", "squared", "mul_inplace", "mul")
 
 
 def rule_shortcut_formulas(prop, repo, types):
     F = repo.F
+    import time as _tt
+    RULE_DEADLINE[0] = _tt.time() + RULE_BUDGET_S
     R = Rule("R-SHORTCUT-FORMULA", "a fast path of a tower inverse / squaring / multiplication that is taken when operand components tested zero returns what the "
              "function's own general formula gives for such operands (graded-units domain with scalar factor: both collapse to monomials)", floor=3, exhaustive=True)
     judged = 0
